@@ -71,43 +71,17 @@ Check C09_lib_driver_accounts :
   format_lib e2s np rk mw p = Some d -> doc_all_comments d = program_comments p.
 Print Assumptions C09_lib_driver_accounts.
 
-(* driver_comments_preserved, CLI driver: REFUTED on the current code (F19) — the end-of-line
-   comment of every statement is dropped ... *)
-Theorem C09_cli_driver_drops_eol :
-  forall e2s np rk k c sl el, wf_stmt (St k (Some c) sl el) = true ->
-  doc_all_comments (format_cli e2s np rk [St k (Some c) sl el]) ++ [c]
-  = program_comments [St k (Some c) sl el].
-Proof. exact cli_driver_drops_eol. Qed.
-Check C09_cli_driver_drops_eol :
-  forall e2s np rk k c sl el, wf_stmt (St k (Some c) sl el) = true ->
-  doc_all_comments (format_cli e2s np rk [St k (Some c) sl el]) ++ [c]
-  = program_comments [St k (Some c) sl el].
-Print Assumptions C09_cli_driver_drops_eol.
-
-Lemma C09_cli_driver_refuted :
-  forall e2s np rk, exists p, forallb wf_stmt p = true /\
-  doc_all_comments (format_cli e2s np rk p) <> program_comments p.
-Proof. exact cli_driver_refuted. Qed.
-
-(* ... and nothing else is: without end-of-line comments the CLI driver accounts for all *)
-Theorem C09_cli_driver_accounts_without_eol :
-  forall e2s np rk p, forallb wf_stmt p = true -> forallb no_eol p = true ->
-  doc_all_comments (format_cli e2s np rk p) = program_comments p.
-Proof. exact cli_driver_accounts_without_eol. Qed.
-Check C09_cli_driver_accounts_without_eol :
-  forall e2s np rk p, forallb wf_stmt p = true -> forallb no_eol p = true ->
-  doc_all_comments (format_cli e2s np rk p) = program_comments p.
-Print Assumptions C09_cli_driver_accounts_without_eol.
-
-(* with fixes/C09-cli-trailing-comment.diff the CLI driver accounts for every comment *)
-Theorem C09_cli_fixed_driver_accounts :
+(* driver_comments_preserved, CLI driver (blots --format; until 9255709 this loop looked only at
+   the first inner pair of a statement and dropped every end-of-line comment — F19, fixed; the
+   witness `x = 1 // note` stays in corpus/C09) *)
+Theorem C09_cli_driver_accounts :
   forall e2s np rk p, forallb wf_stmt p = true ->
-  doc_all_comments (format_cli_fixed e2s np rk p) = program_comments p.
-Proof. exact cli_fixed_driver_accounts. Qed.
-Check C09_cli_fixed_driver_accounts :
+  doc_all_comments (format_cli e2s np rk p) = program_comments p.
+Proof. exact cli_driver_accounts. Qed.
+Check C09_cli_driver_accounts :
   forall e2s np rk p, forallb wf_stmt p = true ->
-  doc_all_comments (format_cli_fixed e2s np rk p) = program_comments p.
-Print Assumptions C09_cli_fixed_driver_accounts.
+  doc_all_comments (format_cli e2s np rk p) = program_comments p.
+Print Assumptions C09_cli_driver_accounts.
 
 (* render_scan: the lexer-level scan (outside string literals) of the rendered text of a document
    yields exactly the comments the document shows, in order — provided every code piece is
